@@ -59,6 +59,13 @@ def run(chk, repo, tier):
                 graph_stores.append((n, v))
     if not graph_stores:
         raise AnalysisError('W1: no `as_dict[key] = (function, ...)` store found in as_dask_dict')
+    def getitem_call_as_subscript(e, at):
+        # `d.__getitem__(x)`, also through a local alias `key_of = d.__getitem__; key_of(x)`, is `d[x]`
+        if isinstance(e, ast.Call) and len(e.args) == 1 and not e.keywords:
+            f = reach.expand_expr(cfg, at, e.func, depth=1) if isinstance(e.func, ast.Name) else e.func
+            if isinstance(f, ast.Attribute) and f.attr == '__getitem__':
+                return ast.Subscript(value=f.value, slice=e.args[0], ctx=ast.Load())
+        return e
     key_dicts = set()
     for n, v in graph_stores:
         seq = seqs.sequence_of(cfg, n.id, v)
@@ -72,6 +79,7 @@ def run(chk, repo, tier):
                 e = ast.parse(seq[2][1], mode='eval').body
             except SyntaxError:
                 e = None
+            e = getitem_call_as_subscript(e, n.id)
             ok = isinstance(e, ast.Subscript) and isinstance(e.value, ast.Name) and unparse(e.slice) == '_'
             if ok:
                 kd = reach.alias_root(cfg, n.id, e.value.id)
@@ -238,23 +246,34 @@ def run(chk, repo, tier):
                           witness='a task with static inputs (model, 1, "x"): its function is called with fewer / more '
                                   'arguments')
     om = repo.module('pharmpy.workflows.dispatchers.local_dask.optimize')
-    sc = om.functions.get('_scatter_computation')
-    if sc is None:
-        raise AnalysisError('_scatter_computation not found')
-    tup = [n for n in walk_no_nested(sc.node) if isinstance(n, ast.Return) and isinstance(n.value, ast.Tuple)]
-    scfg = CFG(sc.node)
-    oks = False
-    for t in tup:
-        sq = seqs.sequence_of(scfg, reach.node_of(scfg, t), t.value)
-        # (computation[0], <f(_)> for every item of computation[1:], no filter), in any spelling
-        if len(sq) == 2 and sq[0] == ('elem', 'computation[0]') and sq[1][0] == 'map' and sq[1][2] == 'computation[1:]' \
-                and not sq[1][3] and '_scatter_computation(' in sq[1][1] and '_' in names(ast.parse(sq[1][1], mode='eval')):
-            oks = True
-    chk.instance(W2, f'_scatter_computation keeps element 0 and maps the rest positionally: {oks}')
-    if not oks:
-        chk.violation(W2, om.rel, sc.qualname, unparse(tup[0].value) if tup else 'no tuple return',
-                      'scattering does not preserve (function, *args) positionally', line=sc.node.lineno,
-                      witness='with the distributed dispatcher a task gets its arguments permuted or its function scattered')
+    # the recursive scatter of a computation: found by shape (a function of optimize.py, module level or nested, that calls
+    # itself and tests its last parameter with isinstance(.., tuple)), not by name
+    cands = []
+    for fn in [f_.node for f_ in om.functions.values()]:
+        if isinstance(fn, ast.FunctionDef) and fn.args.args:
+            par = fn.args.args[-1].arg
+            rec = any(isinstance(c, ast.Call) and isinstance(c.func, ast.Name) and c.func.id == fn.name for c in ast.walk(fn))
+            tst = any(isinstance(c, ast.Call) and dotted(c.func) == 'isinstance' and len(c.args) == 2
+                      and unparse(c.args[0]) == par and 'tuple' in names(c.args[1]) for c in ast.walk(fn))
+            if rec and tst:
+                cands.append((fn, par))
+    if not cands:
+        raise AnalysisError('optimize.py: recursive scatter of a computation (isinstance(x, tuple) + self call) not found')
+    for scn, par in cands:
+        tup = [n for n in walk_no_nested(scn) if isinstance(n, ast.Return) and isinstance(n.value, ast.Tuple)]
+        scfg = CFG(scn)
+        oks = False
+        for t in tup:
+            sq = seqs.sequence_of(scfg, reach.node_of(scfg, t), t.value)
+            # (computation[0], <f(_)> for every item of computation[1:], no filter), in any spelling
+            if len(sq) == 2 and sq[0] == ('elem', f'{par}[0]') and sq[1][0] == 'map' and sq[1][2] == f'{par}[1:]' \
+                    and not sq[1][3] and f'{scn.name}(' in sq[1][1] and '_' in names(ast.parse(sq[1][1], mode='eval')):
+                oks = True
+        chk.instance(W2, f'{scn.name} keeps element 0 and maps the rest positionally: {oks}')
+        if not oks:
+            chk.violation(W2, om.rel, scn.name, unparse(tup[0].value) if tup else 'no tuple return',
+                          'scattering does not preserve (function, *args) positionally', line=scn.lineno,
+                          witness='with the distributed dispatcher a task gets its arguments permuted or its function scattered')
 
     # ------------------------------------------------------------------ W3
     for modname, fname in (('pharmpy.workflows.dispatchers.local_dask.run', 'run'),
